@@ -1332,23 +1332,129 @@ func genNetmap(t testing.TB, r *rand.Rand, p *c16Pools, v int64) *legacy {
 	return l
 }
 
+// c16Rec is one stored NNS record of a name.
+type c16Rec struct {
+	typ  int64
+	id   byte
+	data string
+}
+
 type c16NNSName struct {
 	name   string
 	owner  []byte
 	admin  []byte
 	expire int64
-	txt    []string
 }
 
+// c16NNSTruth is what was planted into a legacy NNS storage.
 type c16NNSTruth struct {
 	names  []c16NNSName
 	supply int64
 	tlds   map[string]bool
+	// records by the name they belong to (registered names and unregistered
+	// sub-names whose records live under the token of a registered parent),
+	// in storage order (type, id)
+	recs  map[string][]c16Rec
+	query []string // unregistered names asked about (isAvailable, resolve)
 }
+
+func (tr *c16NNSTruth) registered(name string) bool {
+	for _, n := range tr.names {
+		if n.name == name {
+			return true
+		}
+	}
+	return false
+}
+
+// tokenOf mirrors nns.tokenIDFromName: the longest registered suffix of the
+// name that is not the bare TLD, the name itself if there is none.
+func (tr *c16NNSTruth) tokenOf(name string) string {
+	fr := strings.Split(name, ".")
+	sum := 0
+	for i := 0; i < len(fr)-1; i++ {
+		if tr.registered(name[sum:]) {
+			return name[sum:]
+		}
+		sum += len(fr[i]) + 1
+	}
+	return name
+}
+
+// readable: getRecords/getAllRecords/resolve of the name do not fault (the
+// token exists and so do all its parents).
+func (tr *c16NNSTruth) readable(name string) bool {
+	tok := tr.tokenOf(name)
+	if !tr.registered(tok) || !strings.Contains(tok, ".") {
+		return false
+	}
+	fr := strings.Split(tok, ".")
+	for i := 1; i < len(fr); i++ {
+		if !tr.registered(strings.Join(fr[i:], ".")) {
+			return false
+		}
+	}
+	return true
+}
+
+func (tr *c16NNSTruth) ofType(name string, typ int64) []string {
+	out := []string{}
+	for _, r := range tr.recs[name] {
+		if r.typ == typ {
+			out = append(out, r.data)
+		}
+	}
+	return out
+}
+
+// resolve mirrors nns.resolve (two redirections at most).
+func (tr *c16NNSTruth) resolve(res []string, name string, typ int64, redirect int) ([]string, bool) {
+	if redirect < 0 || len(name) == 0 {
+		return nil, false
+	}
+	name = strings.TrimSuffix(name, ".")
+	if !tr.readable(name) {
+		return nil, false
+	}
+	cname := ""
+	for _, r := range tr.recs[name] {
+		if r.typ == typ {
+			res = append(res, r.data)
+		}
+		if r.typ == 5 {
+			cname = r.data
+		}
+	}
+	if cname == "" || typ == 5 {
+		return res, true
+	}
+	return tr.resolve(res, cname, typ, redirect-1)
+}
+
+// available mirrors nns.IsAvailable for syntactically valid names whose TLD exists.
+func (tr *c16NNSTruth) available(name string) bool {
+	fr := strings.Split(name, ".")
+	chain := true
+	for i := 0; i < len(fr); i++ {
+		chain = chain && tr.registered(strings.Join(fr[i:], "."))
+	}
+	if chain {
+		return false
+	}
+	parent := name[len(fr[0])+1:]
+	for n, rs := range tr.recs {
+		if len(rs) > 0 && tr.tokenOf(n) == parent && tr.registered(parent) && len(n) > len(name) && strings.HasSuffix(n, name) {
+			return false // a record of a deeper name stored under the parent's token
+		}
+	}
+	return true
+}
+
+var c16RecTypes = []int64{1, 5, 6, 16, 28} // A, CNAME, SOA, TXT, AAAA
 
 func genNNS(t testing.TB, r *rand.Rand, p *c16Pools, v int64, h160 map[string][]byte) *legacy {
 	l := newLegacy("nns", v)
-	tr := &c16NNSTruth{tlds: map[string]bool{}}
+	tr := &c16NNSTruth{tlds: map[string]bool{}, recs: map[string][]c16Rec{}}
 	l.nns = tr
 	old := v < 18000
 	rip := func(s string) []byte {
@@ -1422,14 +1528,113 @@ func genNNS(t testing.TB, r *rand.Rand, p *c16Pools, v int64, h160 map[string][]
 		if r.Intn(3) == 0 {
 			nm.admin = p.acc[5]
 		}
-		for i := 0; i < r.Intn(3); i++ {
-			txt := fmt.Sprintf("rec%d-%d", nd, i)
-			nm.txt = append(nm.txt, txt)
-			rk := cat([]byte{0x22}, rip(name), rip(name), []byte{16, byte(i)})
-			l.keep(rk, ser(t, siStruct(siBytes([]byte(name)), siInt(16), siBytes([]byte(txt)), siInt(int64(i)))))
-		}
 		add(nm, false)
 		nd++
+	}
+	// the longest legal names: four labels of up to 63 characters, 255 in all
+	if tr.tlds["org"] && r.Intn(4) == 0 {
+		n := "org"
+		for i, ln := range []int{63, 63, 63, 59} {
+			n = strings.Repeat(string(rune('k'+i)), ln) + "." + n
+			add(c16NNSName{name: n, owner: p.acc[2], expire: 1 << 50}, false)
+			nd++
+		}
+		l.shape("names:longest")
+	}
+	// records.  Shapes only the versions before 0.20 could produce are
+	// included: their record ids were a free-running byte without the limit of
+	// 16 per type, so a name may hold 17, 20, 40 records of a type; ids are not
+	// assumed dense either.
+	putRec := func(name string, typ int64, id int, data string) {
+		tok := tr.tokenOf(name)
+		rk := cat([]byte{0x22}, rip(tok), rip(name), []byte{byte(typ), byte(id)})
+		l.keep(rk, ser(t, siStruct(siBytes([]byte(name)), siInt(typ), siBytes([]byte(data)), siInt(int64(id)))))
+		tr.recs[name] = append(tr.recs[name], c16Rec{typ, byte(id), data})
+	}
+	var regs []string
+	for _, n := range tr.names {
+		if !tr.tlds[n.name] {
+			regs = append(regs, n.name)
+		}
+	}
+	for ni, name := range regs {
+		if r.Intn(4) != 0 {
+			putRec(name, 6, 0, name+" ops@nspcc.ru 1 3600 600 604800 3600") // SOA
+		}
+		for _, typ := range []int64{16, 1, 28} {
+			n := 0
+			switch r.Intn(8) {
+			case 0, 1, 2:
+				n = 1 + r.Intn(3)
+			case 3:
+				n = 16
+			case 4:
+				if typ == 16 || r.Intn(3) == 0 {
+					n = []int{17, 20, 40}[r.Intn(3)]
+					l.shape(fmt.Sprintf("records:%d-of-a-type", n))
+				}
+			}
+			gaps := n > 1 && r.Intn(5) == 0
+			if gaps {
+				l.shape("records:id-gaps")
+			}
+			id := 0
+			for i := 0; i < n && id < 256; i++ {
+				var data string
+				switch typ {
+				case 1:
+					data = fmt.Sprintf("10.%d.%d.%d", ni, typ, i)
+				case 28:
+					data = fmt.Sprintf("2001:db8::%x:%x", ni, i)
+				default:
+					data = fmt.Sprintf("rec%d-%d", ni, i)
+				}
+				putRec(name, typ, id, data)
+				id++
+				if gaps && r.Intn(2) == 0 {
+					id += 1 + r.Intn(3)
+				}
+			}
+		}
+	}
+	// CNAME records: to another registered name, chains (the third hop faults),
+	// and to a name that does not exist
+	if len(regs) >= 2 && r.Intn(2) == 0 {
+		k := 1 + r.Intn(min(3, len(regs)-1))
+		for i := 0; i < k; i++ {
+			putRec(regs[i], 5, 0, regs[i+1])
+		}
+		l.shape(fmt.Sprintf("cname-chain:%d", k))
+		if r.Intn(4) == 0 {
+			putRec(regs[k], 5, 0, "nosuch."+regs[k])
+			l.shape("cname:dangling")
+		}
+	}
+	// records of unregistered sub-names kept under the token of a registered parent
+	for _, name := range regs {
+		if strings.Count(name, ".") == 1 && len(name) < 40 && r.Intn(3) == 0 {
+			sub := "sub." + name
+			if !tr.registered(sub) {
+				putRec(sub, 16, 0, "sub-txt")
+				putRec(sub, 1, 0, "10.9.9.9")
+				tr.query = append(tr.query, sub)
+				if r.Intn(2) == 0 {
+					putRec("www."+sub, 16, 0, "deeper") // makes `sub` unavailable
+					tr.query = append(tr.query, "www."+sub)
+				}
+				l.shape("records:of-subname")
+			}
+		}
+	}
+	for tld := range tr.tlds {
+		tr.query = append(tr.query, "free."+tld, "a.free."+tld)
+	}
+	sort.Strings(tr.query)
+	for n := range tr.recs {
+		sort.SliceStable(tr.recs[n], func(i, j int) bool {
+			a, b := tr.recs[n][i], tr.recs[n][j]
+			return a.typ < b.typ || a.typ == b.typ && a.id < b.id
+		})
 	}
 	l.shape(fmt.Sprintf("tlds:%d domains:%d old:%v", ntld, nd, old))
 	l.keep([]byte{0x00}, intBytes(tr.supply))
@@ -1591,6 +1796,18 @@ func (r *c16Run) runLegacy(l *legacy, coqName string) {
 	}
 	r.st.OutcomeHistogram["migrate/"+l.Contract+"/"+oc]++
 	r.distinct[fmt.Sprintf("mig|%s|%d|%s|%s", l.Contract, l.V, strings.Join(l.Shape, ","), oc)] = true
+	if l.Contract == "nns" && res.Halt {
+		hist, _ := r.st.Extra["nns_shapes_migrated"].(map[string]int)
+		if hist == nil {
+			hist = map[string]int{}
+			r.st.Extra["nns_shapes_migrated"] = hist
+		}
+		for _, sh := range l.Shape {
+			if strings.HasPrefix(sh, "records:") || strings.HasPrefix(sh, "cname") || strings.HasPrefix(sh, "names:") || strings.HasPrefix(sh, "corpus:") {
+				hist[sh]++
+			}
+		}
+	}
 
 	// ---- Go monitor of the property on the observed run
 	bad := func(f string, a ...any) {
@@ -1838,46 +2055,74 @@ func (r *c16Run) checkNNS(v *Env, h util.Uint160, l *legacy, bad func(string, ..
 	if got := v.ReadInt(h, "totalSupply").Int64(); got != tr.supply {
 		bad("totalSupply = %d after the update, %d before", got, tr.supply)
 	}
-	it, err := v.Read(h, "tokens")
-	if err != nil {
-		bad("tokens() faults: %v", err)
-	} else {
-		got := map[string]bool{}
+	strs := func(it stackitem.Item) []string {
+		out := []string{}
 		for _, x := range itemsOf(it) {
-			got[string(ItemBytes(x))] = true
+			out = append(out, string(ItemBytes(x)))
 		}
-		if len(got) != len(tr.names) {
-			bad("tokens() lists %d names after the update, %d before", len(got), len(tr.names))
+		return out
+	}
+	sameSet := func(got []string, want map[string]bool) bool {
+		if len(got) != len(want) {
+			return false
 		}
-		for _, n := range tr.names {
-			if !got[n.name] {
-				bad("tokens() lost %s", n.name)
+		for _, g := range got {
+			if !want[g] {
+				return false
 			}
 		}
+		return true
 	}
-	owned := map[string][]string{}
+	all := map[string]bool{}
+	for _, n := range tr.names {
+		all[n.name] = true
+	}
+	if it, err := v.Read(h, "tokens"); err != nil || !sameSet(strs(it), all) {
+		bad("tokens() does not list exactly the %d planted names after the update (%v)", len(all), err)
+	}
+	if it, err := v.Read(h, "roots"); err != nil || !sameSet(strs(it), tr.tlds) {
+		bad("roots() does not list exactly the planted TLDs after the update (%v)", err)
+	}
+	if got := v.ReadInt(h, "getPrice").Int64(); got != 10_0000_0000 {
+		bad("getPrice() = %d after the update", got)
+	}
+	owned := map[string]map[string]bool{}
 	for _, n := range tr.names {
 		if tr.tlds[n.name] {
 			continue
 		}
-		owned[string(n.owner)] = append(owned[string(n.owner)], n.name)
+		if owned[string(n.owner)] == nil {
+			owned[string(n.owner)] = map[string]bool{}
+		}
+		owned[string(n.owner)][n.name] = true
 		if it, err := v.Read(h, "ownerOf", n.name); err != nil || !bytes.Equal(ItemBytes(it), n.owner) {
 			bad("ownerOf(%s) differs after the update (%v)", n.name, err)
 		}
-		it, err := v.Read(h, "getRecords", n.name, int64(16))
+		it, err := v.Read(h, "properties", n.name)
 		if err != nil {
-			bad("getRecords(%s) faults: %v", n.name, err)
-			continue
-		}
-		xs := itemsOf(it)
-		if len(xs) != len(n.txt) {
-			bad("getRecords(%s) has %d records after the update, %d before", n.name, len(xs), len(n.txt))
-			continue
-		}
-		for i := range xs {
-			if string(ItemBytes(xs[i])) != n.txt[i] {
-				bad("getRecords(%s)[%d] differs", n.name, i)
+			bad("properties(%s) faults after the update: %v", n.name, err)
+		} else if m, ok := it.Value().([]stackitem.MapElement); !ok {
+			bad("properties(%s) is not a map", n.name)
+		} else {
+			for _, e := range m {
+				switch string(ItemBytes(e.Key)) {
+				case "name":
+					if string(ItemBytes(e.Value)) != n.name {
+						bad("properties(%s).name differs after the update", n.name)
+					}
+				case "expiration":
+					if ItemInt(e.Value).Int64() != n.expire {
+						bad("properties(%s).expiration differs after the update", n.name)
+					}
+				case "admin":
+					if !bytes.Equal(ItemBytes(e.Value), n.admin) {
+						bad("properties(%s).admin differs after the update", n.name)
+					}
+				}
 			}
+		}
+		if it, err := v.Read(h, "isAvailable", n.name); err != nil || isNull(it) || ItemInt(it).Sign() != 0 {
+			bad("isAvailable(%s) is not false for a registered name after the update (%v)", n.name, err)
 		}
 	}
 	for _, o := range r.pools.acc[:6] {
@@ -1885,15 +2130,85 @@ func (r *c16Run) checkNNS(v *Env, h util.Uint160, l *legacy, bad func(string, ..
 		if got := v.ReadInt(h, "balanceOf", o).Int64(); got != int64(len(want)) {
 			bad("balanceOf(%x) = %d after the update, owns %d non-TLD names", o, got, len(want))
 		}
-		it, err := v.Read(h, "tokensOf", o)
-		if err != nil || len(itemsOf(it)) != len(want) {
+		if it, err := v.Read(h, "tokensOf", o); err != nil || !sameSet(strs(it), want) && len(want) > 0 || len(want) == 0 && len(itemsOf(it)) != 0 {
 			bad("tokensOf(%x) differs after the update", o)
 		}
 	}
-	it, err = v.Read(h, "roots")
-	if err != nil || len(itemsOf(it)) != len(tr.tlds) {
-		bad("roots() differs after the update")
+	// records: every read path against the planted content and against each other
+	var names []string
+	for _, n := range tr.names {
+		if !tr.tlds[n.name] {
+			names = append(names, n.name)
+		}
 	}
+	names = append(names, tr.query...)
+	eq := func(a, b []string) bool { return fmt.Sprint(a) == fmt.Sprint(b) && len(a) == len(b) }
+	for _, name := range names {
+		readable := tr.readable(name)
+		it, err := v.Read(h, "getAllRecords", name)
+		if (err == nil) != readable {
+			bad("getAllRecords(%s): fault = %v after the update, expected fault = %v", name, err != nil, !readable)
+			continue
+		}
+		byType := map[int64][]string{}
+		if readable {
+			var want, got []string
+			for _, rc := range tr.recs[name] {
+				want = append(want, fmt.Sprintf("%s|%d|%s|%d", name, rc.typ, rc.data, rc.id))
+			}
+			for _, x := range itemsOf(it) {
+				f := itemsOf(x)
+				if len(f) != 4 {
+					bad("getAllRecords(%s) returns a malformed record", name)
+					continue
+				}
+				got = append(got, fmt.Sprintf("%s|%d|%s|%d", ItemBytes(f[0]), ItemInt(f[1]).Int64(), ItemBytes(f[2]), ItemInt(f[3]).Int64()))
+				byType[ItemInt(f[1]).Int64()] = append(byType[ItemInt(f[1]).Int64()], string(ItemBytes(f[2])))
+			}
+			if !eq(got, want) {
+				bad("getAllRecords(%s) shows %d records after the update, %d were stored (first difference at %d)", name, len(got), len(want), firstDiff(got, want))
+			}
+		}
+		for _, typ := range c16RecTypes {
+			it, err := v.Read(h, "getRecords", name, typ)
+			if (err == nil) != readable {
+				bad("getRecords(%s, %d): fault = %v after the update, expected fault = %v", name, typ, err != nil, !readable)
+			} else if readable {
+				got, want := strs(it), tr.ofType(name, typ)
+				if !eq(got, want) {
+					bad("getRecords(%s, %d) shows %d records after the update, %d were stored (first difference at %d)", name, typ, len(got), len(want), firstDiff(got, want))
+				}
+				if via := byType[typ]; !eq(got, append([]string{}, via...)) {
+					bad("getRecords(%s, %d) and getAllRecords(%s) disagree after the update: %d vs %d records", name, typ, name, len(got), len(via))
+				}
+			}
+			want, ok := tr.resolve([]string{}, name, typ, 2)
+			it, err = v.Read(h, "resolve", name, typ)
+			if (err == nil) != ok {
+				bad("resolve(%s, %d): fault = %v after the update, expected fault = %v", name, typ, err != nil, !ok)
+			} else if ok && !eq(strs(it), want) {
+				bad("resolve(%s, %d) shows %d records after the update, expected %d", name, typ, len(strs(it)), len(want))
+			}
+		}
+	}
+	for _, name := range tr.query {
+		want := tr.available(name)
+		if it, err := v.Read(h, "isAvailable", name); err != nil || isNull(it) || (ItemInt(it).Sign() != 0) != want {
+			bad("isAvailable(%s) is not %v after the update (%v)", name, want, err)
+		}
+	}
+	if _, err := v.Read(h, "isAvailable", "free.nosuchtld"); err == nil {
+		bad("isAvailable under a TLD that does not exist answers after the update")
+	}
+}
+
+func firstDiff(a, b []string) int {
+	for i := 0; i < len(a) && i < len(b); i++ {
+		if a[i] != b[i] {
+			return i
+		}
+	}
+	return min(len(a), len(b))
 }
 
 func (r *c16Run) gen(rr *rand.Rand, c string, v int64) *legacy {
@@ -2036,6 +2351,58 @@ func (r *c16Run) corpus() []*legacy {
 		l.ExpectFault = "TLD without owner below 0.18"
 		l.shape("corpus:tld-null-owner")
 	})
+	// NNS storages only the versions before 0.20 could write: more than 16 records of one type
+	// (ids were a free-running byte), ids with gaps, several types, a CNAME; every read path must
+	// show all of them after the update
+	for _, ver := range []int64{19001, 17000} {
+		ver := ver
+		mk("nns", ver, func(l *legacy) {
+			tr := &c16NNSTruth{tlds: map[string]bool{"com": true}, recs: map[string][]c16Rec{}}
+			l.nns = tr
+			rip := func(s string) []byte {
+				h := hash.RipeMD160([]byte(s)).BytesBE()
+				r.h160[s] = h
+				return h
+			}
+			var tldOwner stackitem.Item = stackitem.Null{}
+			if ver < 18000 {
+				tldOwner = siBytes(p.acc[0])
+				l.put(cat([]byte{0x01}, p.acc[0]), intBytes(1))
+				l.put(cat([]byte{0x02}, p.acc[0], rip("com")), []byte("com"))
+				l.gone = append(l.gone, string(cat([]byte{0x01}, p.acc[0])), string(cat([]byte{0x02}, p.acc[0], rip("com"))))
+			}
+			l.put(cat([]byte{0x21}, rip("com")), ser(t, siStruct(tldOwner, siBytes([]byte("com")), siInt(1<<50), stackitem.Null{})))
+			l.keep(cat([]byte{0x20}, []byte("com")), []byte{0})
+			tr.names = append(tr.names, c16NNSName{name: "com", expire: 1 << 50})
+			for _, n := range []string{"testdomain.com", "alias.com"} {
+				l.keep(cat([]byte{0x21}, rip(n)), ser(t, siStruct(siBytes(p.acc[1]), siBytes([]byte(n)), siInt(1<<50), stackitem.Null{})))
+				l.keep(cat([]byte{0x02}, p.acc[1], rip(n)), []byte(n))
+				tr.names = append(tr.names, c16NNSName{name: n, owner: p.acc[1], expire: 1 << 50})
+			}
+			l.keep(cat([]byte{0x01}, p.acc[1]), intBytes(2))
+			tr.supply = 3
+			l.keep([]byte{0x00}, intBytes(3))
+			l.keep([]byte{0x10}, intBytes(10_0000_0000))
+			put := func(name string, typ int64, id int, data string) {
+				rk := cat([]byte{0x22}, rip(name), rip(name), []byte{byte(typ), byte(id)})
+				l.keep(rk, ser(t, siStruct(siBytes([]byte(name)), siInt(typ), siBytes([]byte(data)), siInt(int64(id)))))
+				tr.recs[name] = append(tr.recs[name], c16Rec{typ, byte(id), data})
+			}
+			for i := 0; i < 17; i++ { // A records, ids with gaps: 0,2,4,...
+				put("testdomain.com", 1, 2*i, fmt.Sprintf("10.0.0.%d", i))
+			}
+			put("testdomain.com", 6, 0, "testdomain.com ops@nspcc.ru 1 3600 600 604800 3600")
+			for i := 0; i < 20; i++ { // 20 TXT records, dense ids
+				put("testdomain.com", 16, i, fmt.Sprintf("record #%d", i))
+			}
+			put("alias.com", 5, 0, "testdomain.com")
+			for i := 0; i < 40; i++ {
+				put("alias.com", 16, i, fmt.Sprintf("alias #%d", i))
+			}
+			tr.query = []string{"free.com"}
+			l.shape("corpus:more-than-16-records-of-a-type")
+		})
+	}
 	// data shapes
 	mk("proxy", prev, func(l *legacy) { l.Data = c16Arr(); l.ExpectFault = "empty data"; l.shape("corpus:data-empty") })
 	mk("proxy", prev, func(l *legacy) { l.Data = c16Null; l.ExpectFault = "null data"; l.shape("corpus:data-null") })
